@@ -116,3 +116,144 @@ Proof.
   assert (sod mod 60 = s) by (subst sod; symmetry; apply (Z.mod_unique _ _ (h * 60 + mn)); lia).
   congruence.
 Qed.
+
+(* ---- closed form and order facts (forward direction only: lia-friendly) ---- *)
+Definition gdays (y : Z) : Z := 365 * y + y / 4 - y / 100 + y / 400.
+
+Lemma dfc_closed y m d :
+  days_from_civil y m d = gdays (if m <=? 2 then y - 1 else y) + doy_of_md m d - 719468.
+Proof.
+  unfold days_from_civil, gdays. set (y' := if m <=? 2 then y - 1 else y).
+  Z.div_mod_to_equations; lia.
+Qed.
+
+Lemma gdays_step y : 365 <= gdays (y + 1) - gdays y <= 366.
+Proof. unfold gdays. Z.div_mod_to_equations; lia. Qed.
+
+Lemma gdays_mono a b : a <= b -> gdays a <= gdays b.
+Proof. unfold gdays. intro. Z.div_mod_to_equations; lia. Qed.
+
+Lemma gdays_gap a b : a + 1 <= b -> gdays a + 365 <= gdays b.
+Proof. unfold gdays. intro. Z.div_mod_to_equations; lia. Qed.
+
+(* first day of year y *)
+Definition ystart (y : Z) : Z := gdays (y - 1) + 306 - 719468.
+
+Lemma ystart_eq y : days_from_civil y 1 1 = ystart y.
+Proof. rewrite dfc_closed. reflexivity. Qed.
+
+Lemma ystart_mono a b : a <= b -> ystart a <= ystart b.
+Proof. intro. unfold ystart. pose proof (gdays_mono (a - 1) (b - 1)). lia. Qed.
+
+Lemma ystart_gap a b : a + 1 <= b -> ystart a + 365 <= ystart b.
+Proof. intro. unfold ystart. pose proof (gdays_gap (a - 1) (b - 1)). lia. Qed.
+
+Lemma ystart_step y : 365 <= ystart (y + 1) - ystart y <= 366.
+Proof. unfold ystart. pose proof (gdays_step (y - 1)). replace (y + 1 - 1) with (y - 1 + 1) by lia. lia. Qed.
+
+Lemma valid_date_bounds y m d :
+  valid_date y m d = true -> 1 <= m <= 12 /\ 1 <= d <= 31 /\ (m = 2 -> d <= 29) /\ d <= days_in_month y m.
+Proof.
+  unfold valid_date. intro V. repeat (apply andb_true_iff in V as [V ?]).
+  repeat match goal with H : (_ <=? _) = true |- _ => apply Z.leb_le in H end.
+  pose proof (days_in_month_le31 y m).
+  repeat split; try lia.
+  intro. subst m. unfold days_in_month in *. cbn in *. destruct (is_leap y); lia.
+Qed.
+
+(* a date lies inside its year *)
+Lemma dfc_in_year y m d :
+  1 <= m <= 12 -> 1 <= d <= 31 -> (m = 2 -> d <= 29) ->
+  ystart y <= days_from_civil y m d < ystart (y + 1).
+Proof.
+  intros Hm Hd H2. rewrite dfc_closed. unfold ystart, doy_of_md.
+  replace (y + 1 - 1) with y by lia.
+  pose proof (gdays_step (y - 1)) as S. replace (y - 1 + 1) with y in S by lia.
+  destruct (m <=? 2) eqn:E1; destruct (2 <? m) eqn:E2;
+    try apply Z.leb_le in E1; try apply Z.leb_gt in E1; try apply Z.ltb_lt in E2; try apply Z.ltb_ge in E2; try lia.
+  - assert (m = 1 \/ m = 2) as [-> | ->] by lia.
+    + change ((153 * (1 + 9) + 2) / 5) with 306. lia.
+    + change ((153 * (2 + 9) + 2) / 5) with 337. specialize (H2 eq_refl). lia.
+  - Z.div_mod_to_equations; lia.
+Qed.
+
+(* the same month and day one year later: 365 or 366 days on *)
+Lemma dfc_next_year y m d :
+  365 <= days_from_civil (y + 1) m d - days_from_civil y m d <= 366.
+Proof.
+  rewrite !dfc_closed. destruct (m <=? 2).
+  - pose proof (gdays_step (y - 1)). replace (y + 1 - 1) with (y - 1 + 1) by lia. lia.
+  - pose proof (gdays_step y). lia.
+Qed.
+
+Lemma is_leap_consecutive y : is_leap y = true -> is_leap (y + 1) = false.
+Proof.
+  unfold is_leap. intro H.
+  destruct ((y + 1) mod 4 =? 0) eqn:A; [|destruct ((y + 1) mod 400 =? 0) eqn:B; [|reflexivity]].
+  - apply Z.eqb_eq in A. exfalso.
+    apply orb_true_iff in H as [H|H].
+    + apply andb_true_iff in H as [H _]. apply Z.eqb_eq in H. Z.div_mod_to_equations; lia.
+    + apply Z.eqb_eq in H. Z.div_mod_to_equations; lia.
+  - apply Z.eqb_eq in B. apply Z.eqb_neq in A. exfalso. Z.div_mod_to_equations; lia.
+Qed.
+
+(* month lengths depend on the year only in February *)
+Lemma valid_date_other_year y y' m d :
+  valid_date y m d = true -> (m <> 2 \/ d <> 29) -> valid_date y' m d = true.
+Proof.
+  unfold valid_date, days_in_month. intros V N.
+  repeat (apply andb_true_iff in V as [V ?]).
+  repeat match goal with H : (_ <=? _) = true |- _ => apply Z.leb_le in H end.
+  destruct (m =? 2) eqn:E.
+  - apply Z.eqb_eq in E. subst m.
+    repeat (apply andb_true_iff; split); apply Z.leb_le; try lia.
+    destruct (is_leap y), (is_leap y'); lia.
+  - repeat (apply andb_true_iff; split); apply Z.leb_le; lia.
+Qed.
+
+Lemma valid_feb29_leap y : valid_date y 2 29 = true -> is_leap y = true.
+Proof.
+  unfold valid_date, days_in_month. cbn. destruct (is_leap y); [reflexivity|]. cbn. discriminate.
+Qed.
+
+Lemma epoch_bounds t :
+  valid_dt t = true ->
+  days_from_civil (yr t) (mo t) (dy t) * 86400 <= epoch_of_civil t
+  < days_from_civil (yr t) (mo t) (dy t) * 86400 + 86400.
+Proof.
+  unfold valid_dt, epoch_of_civil. intro V. do 6 (apply andb_true_iff in V as [V ?]).
+  repeat match goal with H : (_ <=? _) = true |- _ => apply Z.leb_le in H end. lia.
+Qed.
+
+Lemma valid_dt_date t : valid_dt t = true -> valid_date (yr t) (mo t) (dy t) = true.
+Proof. unfold valid_dt. intro V. do 6 (apply andb_true_iff in V as [V ?]). exact V. Qed.
+
+Lemma valid_dt_time t :
+  valid_dt t = true -> 0 <= hh t <= 23 /\ 0 <= mi t <= 59 /\ 0 <= ss t <= 59.
+Proof.
+  unfold valid_dt. intro V. do 6 (apply andb_true_iff in V as [V ?]).
+  repeat match goal with H : (_ <=? _) = true |- _ => apply Z.leb_le in H end. lia.
+Qed.
+
+(* an instant lies inside its civil year *)
+Lemma epoch_in_year t :
+  valid_dt t = true -> ystart (yr t) * 86400 <= epoch_of_civil t < ystart (yr t + 1) * 86400.
+Proof.
+  intro V. pose proof (epoch_bounds t V) as B.
+  destruct (valid_date_bounds _ _ _ (valid_dt_date t V)) as (Hm & Hd & H2 & _).
+  pose proof (dfc_in_year (yr t) (mo t) (dy t) Hm Hd H2). lia.
+Qed.
+
+(* two instants less than 365 days apart lie in the same or in consecutive years *)
+Lemma year_close a b :
+  valid_dt a = true -> valid_dt b = true ->
+  epoch_of_civil a <= epoch_of_civil b -> epoch_of_civil b - epoch_of_civil a < 365 * 86400 ->
+  yr b = yr a \/ yr b = yr a + 1.
+Proof.
+  intros Va Vb Hle Hlt.
+  pose proof (epoch_in_year a Va) as Ia. pose proof (epoch_in_year b Vb) as Ib.
+  destruct (Z_lt_le_dec (yr b) (yr a)) as [L|L].
+  - pose proof (ystart_mono (yr b + 1) (yr a) ltac:(lia)). lia.
+  - destruct (Z_le_gt_dec (yr b) (yr a + 1)) as [L2|L2]; [lia|].
+    pose proof (ystart_gap (yr a + 1) (yr b) ltac:(lia)). lia.
+Qed.
